@@ -112,9 +112,17 @@ class NamePool:
             if r.random() < 0.5:
                 n += "_" + r.choice(SNAKE_WORDS)
             if self.digit_fields and r.random() < self.digit_fields:
-                n += "_" + r.choice(SNAKE_DIGIT_WORDS)
-                if r.random() < 0.3:
-                    n += "_" + r.choice(SNAKE_WORDS)
+                form = r.randrange(4)
+                if form == 0:
+                    n += "_" + r.choice(SNAKE_DIGIT_WORDS)
+                    if r.random() < 0.3:
+                        n += "_" + r.choice(SNAKE_WORDS)
+                elif form == 1:
+                    n += "_" + r.choice("abqwxyz") + "_" + r.choice("abqwxyz")  # imu_a_x: one-letter components vanish in a PascalCase round trip
+                elif form == 2:
+                    n = r.choice("abqwxyz") + "_" + r.choice(SNAKE_DIGIT_WORDS + list("abqwxyz"))  # q_w, x_1
+                else:
+                    n += "_" + r.choice("abqwxyz")
             if n in RESERVED or pascal_of_snake(n) in GO_METHODS:
                 continue
             if local_used is not None:
